@@ -1,0 +1,14 @@
+//go:build verif
+
+package retriever
+
+// VerifCrashHook is set by the verification harness (build tag verif). It is called at every
+// crash point between two file-system steps of Dump with the name of the step just completed.
+// The harness aborts the dump there (panic) to enumerate every interruption point.
+var VerifCrashHook func(name string)
+
+func verifCrashPoint(name string) {
+	if hook := VerifCrashHook; hook != nil {
+		hook(name)
+	}
+}
